@@ -265,7 +265,7 @@ Proof. exact share_iff_agree_refuted_l. Qed.
 Print Assumptions C15_share_iff_agree_refuted.
 
 (* from items back to features: it_kb is the index of the hash class.  Hash classes are classes of the CANONICAL FORM
-   of the group options (+ frameworks).  Equal options are always in one class ... *)
+   of the group options (+ frameworks), up to the atoms CPython hashes alike (hnorm: "" ~ 0 ~ False, -1 ~ -2).  Equal options are always in one class ... *)
 Theorem C15_equal_options_same_class : forall a b,
   wfv (VDict (g_group a)) -> wfv (VDict (g_group b)) -> nofs (VDict (g_group a)) -> nofs (VDict (g_group b)) ->
   hash_key (VDict (g_group a)) <> None -> hash_key (VDict (g_group b)) <> None ->
@@ -286,6 +286,12 @@ Print Assumptions C15_base_class_iff.
    The direction -> is REFUTED on the faithful model (known finding C15-grouping-conflates-list-tuple): group options
    {"c": [1, 2]} and {"c": (1, 2)} are unequal, have the same canonical form, and the two features are computed in one
    step.  The direction <- is C15_equal_options_same_class. *)
+(* the same with a genuine collision of Python's hash: hash("") = hash(0) (also hash(-1) = hash(-2)) *)
+Theorem C15_hash_collision_refuted :
+  opts_agree hc_c hc_d = false /\ base_eqb hc_c hc_d = true /\ group_features [hc_c; hc_d] = [[0; 1]]%nat.
+Proof. exact hash_collision_refuted_l. Qed.
+Print Assumptions C15_hash_collision_refuted.
+
 Theorem C15_hash_class_refuted :
   opts_agree hc_a hc_b = false /\ base_eqb hc_a hc_b = true /\ kf_hash_conflation [hc_a; hc_b] = true /\
   group_features [hc_a; hc_b] = [[0; 1]]%nat.
